@@ -335,7 +335,10 @@ TEXT = {
                 "ascending and adds exactly the new entry; on an ascending index the lookup returns the greatest listed entry not above "
                 "the requested one; PopulatePersistentCache lists exactly the policy reference entries, ascending; a freshly populated (covering) "
                 "cache answers the policy look-up for any non-policy entry exactly as the scan of the log does, for every history "
-                "(C08_lookup_refines); and, by kernel "
+                "(C08_lookup_refines); the verdict of the verification loop never depends on the cache threaded through it - absent, stale, "
+                "fresh or populated at any earlier point (relLoopC_verdict, induction over the whole loop incl. recovery, every history / "
+                "queue / state / variant): every cache-dependence of a verdict comes from where the walk STARTS (checkpoint, F29) and from "
+                "which policy / attestation state it starts with (look-ups, F6); and, by kernel "
                 "evaluation of the whole verification model, the two cache defects of this tree: F6 (a cache populated before a policy "
                 "change makes latest-only verification accept a de-authorized key) and F29 (a checkpoint written by a successful "
                 "latest-only / from-entry verification makes later full verification skip earlier violations). The full statement "
